@@ -413,7 +413,16 @@ def run(rep, facts, tier):
             pr = st['lhs'].get('p') or []
             if pr and isinstance(pr[-1], dict) and pr[-1].get('n') == 'last_seq':
                 grow.append((bb, si))
-    gt = [(s_, t_) for s_, t_, cond, lab in switch_edges(ac, fx, og) if cond[0] == 'call' and cond[1].endswith('::gt') and lab is True and has_field(cond[2][1], 'last_seq')]
+    gt = []
+    for s_, t_, cond, lab in switch_edges(ac, fx, og):
+        if cond[0] == 'call' and cond[1].rsplit('::', 1)[-1] in ('gt', 'lt', 'ge', 'le') and len(cond[2]) == 2:
+            m = cond[1].rsplit('::', 1)[-1]
+            l0, l1 = has_field(cond[2][0], 'last_seq'), has_field(cond[2][1], 'last_seq')
+            if l0 == l1:
+                continue
+            rel = m if l1 else {'lt': 'gt', 'gt': 'lt', 'le': 'ge', 'ge': 'le'}[m]     # written as new ? last
+            if (rel == 'gt' and lab is True) or (rel == 'le' and lab is False):
+                gt.append((s_, t_))
     okg = bool(grow) and bool(gt) and all(P.every_path_passes(None, g, via_edges=gt, from_entry=True) for g in grow)
     rep.check(okg, 'R04.7', 'HistoryBuffer::add_change/last-seq-grows', 'last_seq := new_seq only if new_seq > last_seq', 'last_seq can be moved backwards by add_change', ac.where())
 
